@@ -11,7 +11,7 @@ CHECKS = {
             'Hypothesis structured generation + enumerated sub-item adjacencies; round-trip oracle',
             'Thousands of generated PDUs of all 7 types (items in any order, 9 sub-item kinds, '
             'boundary integers, payloads beyond 64 KiB, single fields of 32767..60000 bytes) and all 81+9 sub-item adjacencies are '
-            'round-tripped: recursive field equality and byte-exact re-encoding.',
+            'round-tripped: recursive field equality and byte-exact re-encoding. A long-lived-process run round-trips 2500 (thorough 12000) association PDUs with never-seen UIDs and then the early ones again.',
             'Round-trip only (conformance is C02). Generated values are restricted to what the '
             'public constructors document (AE <=16 chars, UID <=64 chars, item totals < 64 KiB).',
             'pdugen', 'DESIGN.md#C01'),
@@ -27,7 +27,7 @@ CHECKS = {
             'Fifteen conversations (both roles), Hypothesis-generated conversations and pipelined streams beyond 64 KiB are replayed through the real provider loop under a simulated '
             'socket/select with every single cut offset, pairs of cuts, one-byte dribble, whole bursts, random '
             'k-cuts, read sizes equal to the length (half, third) of each PDU, each with the first segment already waiting or not and segments back-to-back or spaced; '
-            'indications, bytes sent and final state must equal the one-PDU-per-segment delivery.',
+            'indications, bytes sent and final state must equal the one-PDU-per-segment delivery. Long streams include ~1800 ignorable PDUs arriving at once after a local abort / a confirmed release.',
             'Transport modelled as an ordered byte stream (vf/simnet.py); cuts are applied within the bytes the '
             'peer sends between two local actions.', 'simnet', 'DESIGN.md#C03'),
     'C05': (True, 'exploration',
@@ -52,7 +52,7 @@ CHECKS = {
             'Every maximum PDU length 7..70 (thorough 7..300) x every data length within +-2 of a multiple of the '
             'fragment size, 2^k boundaries up to 2^32-1, all 23 classes, three data sources, both encode() and '
             'Association.send, several encode() generators consumed alternately; '
-            'Association.send: size bound, flags, order, context id, non-emptiness and byte-exact content.',
+            'Association.send: size bound, flags, order, context id, non-emptiness and byte-exact content. Messages of 33000-70000 (thorough 300000) fragments are included.',
             'The command-set bytes are compared with dsutils.encode(command_set) (their well-formedness is C08) '
             'and re-read by the independent reader vf/refcmd.py.', 'refcmd', 'DESIGN.md#C06'),
     'C07': (True, 'exploration',
@@ -60,7 +60,7 @@ CHECKS = {
             'Reference-encoded (and library-encoded) messages of all 23 command fields are delivered in every '
             'composition of their fragment list into PDUs (lists up to 9/12 fragments), sampled groupings for '
             'long lists, in-memory / temp-file / directory reception, every Command Data Set Type value but 0101H, genuine data sets in 3 transfer syntaxes, sequences of messages through the real provider loop; '
-            'completion must flip exactly at the last required fragment and content must be byte-identical.',
+            'completion must flip exactly at the last required fragment and content must be byte-identical. One association carries 1.1 GiB (thorough 4.5 GiB) of ordinary 4 MiB messages through the real provider loop.',
             'Command sets and fragments come from vf/refcmd.py / vf/dimsegen.py, not from the library; '
             'fragments of a single message per sequence.', 'refcmd', 'DESIGN.md#C07'),
     'C08': (True, 'exploration',
@@ -68,7 +68,7 @@ CHECKS = {
             'For each of the 23 classes, generated histories of 1-4 sends of the same object (fields changed, '
             'data set attached/removed, decoded-origin objects) go through the real Association.send; each '
             'command set is parsed by an independent reader: group length, ascending tags, even lengths, '
-            'command field code, data-set-type flag versus data fragments actually sent.',
+            'command field code, data-set-type flag versus data fragments actually sent. Data sets in file-like objects handed over at their end / still empty and rewound before the send; copies of messages.',
             'Trusts vf/refcmd.py (command dictionary from PS3.7 Annex E).', 'refcmd', 'DESIGN.md#C08'),
     'C09': (True, 'exploration',
             'exhaustive configuration x request enumeration + Hypothesis on a scripted provider; wire-level oracle via the reference parser',
@@ -84,7 +84,7 @@ CHECKS = {
             'For every pair (own maximum, peer-announced maximum) incl. 0 on either side, both roles negotiate '
             'through the real ACSE code and then send messages below, at and above the implied fragment size; '
             'every P-DATA-TF must respect the peer limit, nothing may be lost, something must be sent, and the '
-            'announced value must be the own limit or less.', 'Scripted provider; data capped at 300 kB.',
+            'announced value must be the own limit or less. Data-less messages with command sets longer than a fragment; Maximum Length sub-item first / last / in the middle of the user information.', 'Scripted provider; data capped at 300 kB.',
             'fakedul', 'DESIGN.md#C10'),
     'C11': (True, 'exploration',
             'Hypothesis over add_scu/add_scp sequences and reply patterns + exhaustive reply enumeration for small proposals; wire-level oracle',
@@ -100,7 +100,7 @@ CHECKS = {
             'PDUs, 40 semantically hostile P-DATA streams and Hypothesis-generated mixes under varying '
             'segmentation, followed by the peer closing and ARTIM passing; the loop must return normally, never '
             'block, write only well-formed PDUs, end idle and closed, tell an engaged user, and answer certainly '
-            'undecodable PDUs with A-ABORT.',
+            'undecodable PDUs with A-ABORT. Bursts of 1500 / 5000 of the smallest PDUs there are, in every state.',
             'Hang = structural (blocking recv with nothing scheduled, or 40000 scheduling points). Leniently '
             'accepted malformed PDUs are not violations. 4 GiB declared lengths are not streamed.',
             'simnet', 'DESIGN.md#C12'),
@@ -110,7 +110,7 @@ CHECKS = {
             'local step racing it); 13 silence points are checked just before and just after the ARTIM deadline '
             '(also with a chattering or stalling peer, and while another association is served in the same process); 40 / 1100 pipelined messages the local user never fetches followed by each ending; kill and stop() are injected at every quiescent point; '
             'Association.kill() for both stop() outcomes. The loop must return, end idle/closed, ARTIM stopped, '
-            'and an engaged user must have been told.',
+            'and an engaged user must have been told. The peer\'s last PDU followed in the same burst by up to 200 kB, the peer never closing.',
             'Simulated time; exhaustive over the corpus of conversations, not over all conversations.',
             'simnet', 'DESIGN.md#C13'),
     'C14': (True, 'exploration',
@@ -118,7 +118,7 @@ CHECKS = {
             'Every standard (result, source, reason) triple and abort (source, reason) pair, generated values over '
             '0-255, four positions of the event (before, between, inside a half-consumed C-FIND stream, during a '
             'multi-fragment C-STORE), five ways of leaving request_association (also when the peer refused all or most contexts), raw-socket loopback peers incl. release with responses in flight: the PDUs handed to the provider '
-            'and the exception type/fields seen by the caller are compared with what the other side did.',
+            'and the exception type/fields seen by the caller are compared with what the other side did. One long-lived entity answers 300+ associations in a row (refused / served / aborted), each judged like the first.',
             'Scripted provider (vf/fakedul.py); what the provider itself does with these PDUs is C04/C05.',
             'fakedul', 'DESIGN.md#C14'),
     'C15': (True, 'exploration',
@@ -143,7 +143,7 @@ CHECKS = {
             'n_action (+ its N-EVENT-REPORT on the sub-association) and n_event_report are driven with generated '
             'message ids (16-bit boundaries enumerated), UIDs, context ids and handler outcomes incl. '
             'EventHandlingError; every response must be of the matching type, on the arrival context, with the '
-            'message id of the request / SOP class / instance and the right status, and every request must be answered.',
+            'message id of the request / SOP class / instance and the right status, and every request must be answered. A retry with the same Transaction UID after a commitment result that could not be reported.',
             'Where no failure status is documented for EventHandlingError any Failure-class status is accepted.',
             'fakedul', 'DESIGN.md#C17'),
     'C19': (True, 'exploration',
@@ -163,13 +163,13 @@ CHECKS = {
             'right association with the right context and content, survivors unaffected. Part b: 2-4 acceptor bodies '
             'sharing one AE run on scripted providers, interleaved at every provider send/receive in a '
             'Hypothesis-drawn (shrinkable, replayable) order; each must behave exactly as when run alone. '
-            '_new_msg_id() is checked from 16 concurrent threads. Part c: codecs, fragmentation, group length and status classification in 8 threads under a 1 us switch interval against single-threaded results. Part d: one requesting entity with 2-4 associations open at once on scripted peers refusing with codes 1-4: each proposes all configured classes and uses exactly what its own peer accepted.',
+            '_new_msg_id() is checked from 16 concurrent threads. Part c: codecs, fragmentation, group length and status classification in 8 threads under a 1 us switch interval against single-threaded results. Part d: one requesting entity with 2-4 associations open at once on scripted peers refusing with codes 1-4: each proposes all configured classes and uses exactly what its own peer accepted. Part f: one long-lived entity on which 300 associations in a row fail in each of 7 ways, an ordinary association after each run must be served.',
             'Races finer than provider primitives are only sampled (part a), not enumerated.',
             'loopback+fakedul', 'DESIGN.md#C20'),
     'C18': (True, 'exploration',
             'exhaustive enumeration against an independent status table + metamorphic precedence test',
             'All 65536 codes x 24 command choices are constructed and compared with a table '
-            'transcribed from PS3.7/PS3.4; the domain is finite so the enumeration is complete.',
+            'transcribed from PS3.7/PS3.4; the domain is finite so the enumeration is complete. Registrations made after the codes were looked up, classification asked from two threads.',
             'Trusts the transcription of the status tables (DESIGN.md C18) and its tolerance for '
             'codes outside every service-specific table.', 'enumeration', 'DESIGN.md#C18'),
 }
